@@ -251,7 +251,8 @@ AsmLabelEnv(P, toks, m, lines, env, base) ==
     LET RECURSIVE Offs(_, _, _)
         Offs(j, off, acc) ==
             IF j > Len(lines) THEN acc
-            ELSE IF lines[j].k = "label" THEN Offs(j + 1, off, Bind(acc, lines[j].name, IntV((base + off) \div 8, -1)))
+            ELSE IF lines[j].k = "label"
+            THEN Offs(j + 1, off, Bind(acc, lines[j].name, IF (base + off) % 8 = 0 THEN IntV((base + off) \div 8, -1) ELSE ErrV))
             ELSE LET st == SubstToks(P, toks, m, lines[j].toks, 1)
                      cs == IF st.ok THEN Match(P, st.toks) ELSE {}
                      sz == IF cs = {} THEN 0 ELSE MatchStaticSize(P, st.toks, CHOOSE c \in cs : TRUE)
@@ -298,9 +299,11 @@ EvalCand(P, toks, m, env) ==
                   lv == Locals(1, penv, <<>>)
               IN IF ~lv.ok THEN lv.v
                  ELSE LET base == Bind(NoLocals(penv), "#depth", IntV(DepthOf(penv) + 1, -1))
-                          env2 == [x \in DOMAIN base \cup DOMAIN lv.loc |-> IF x \in DOMAIN lv.loc THEN lv.loc[x] ELSE base[x]] IN
-                      AsmLines(P, toks, m, prod.lines, env2,
-                               AsmLabelEnv(P, toks, m, prod.lines, env2, env["$"].v * 8), 1, <<>>)
+                          env2 == [x \in DOMAIN base \cup DOMAIN lv.loc |-> IF x \in DOMAIN lv.loc THEN lv.loc[x] ELSE base[x]]
+                          labs == AsmLabelEnv(P, toks, m, prod.lines, env2, env["$"].v * 8) IN
+                      \* a block label off an address boundary is an error, used or not
+                      IF \E x \in DOMAIN labs : labs[x].t = "err" THEN ErrV
+                      ELSE AsmLines(P, toks, m, prod.lines, env2, labs, 1, <<>>)
     ELSE Eval(prod, penv).v
 
 \* an instruction's encoding: [t |-> "ok", bits, s] | "err" | "big"
